@@ -97,6 +97,7 @@ func (om *offsetManager) ManagePartition(topic string, partition int32) (Partiti
 		return nil, ConfigurationError("That topic/partition is already being managed")
 	}
 
+	verifEvtKV("lc.pom.new", "", verifID(pom), verifID(om))
 	topicManagers[partition] = pom
 	return pom, nil
 }
@@ -104,28 +105,36 @@ func (om *offsetManager) ManagePartition(topic string, partition int32) (Partiti
 func (om *offsetManager) Close() error {
 	om.closeOnce.Do(func() {
 		// exit the mainLoop
+		verifEvtKV("lc.om.closing.close", "", verifID(om), 0)
 		close(om.closing)
 		if om.conf.Consumer.Offsets.AutoCommit.Enable {
 			<-om.closed
+			verifEvtKV("lc.om.closed.recv", "", verifID(om), 0)
 		}
 
 		// mark all POMs as closed
+		verifEvtKV("lc.om.poms.asyncclose", "", verifID(om), 0)
 		om.asyncClosePOMs()
 
 		// flush one last time
 		if om.conf.Consumer.Offsets.AutoCommit.Enable {
+			verifEvtKV("lc.om.final.begin", "", verifID(om), int64(om.conf.Consumer.Offsets.Retry.Max))
 			for attempt := 0; attempt <= om.conf.Consumer.Offsets.Retry.Max; attempt++ {
+				verifEvtKV("lc.om.final.flush", "", verifID(om), int64(attempt))
 				om.flushToBroker()
 				if om.releasePOMs(false) == 0 {
+					verifEvtKV("lc.om.final.clean", "", verifID(om), 0)
 					break
 				}
 			}
 		}
 
+		verifEvtKV("lc.om.release.force", "", verifID(om), 0)
 		om.releasePOMs(true)
 		om.brokerLock.Lock()
 		om.broker = nil
 		om.brokerLock.Unlock()
+		verifEvtKV("lc.om.close.done", "", verifID(om), 0)
 	})
 	return nil
 }
@@ -231,6 +240,7 @@ func (om *offsetManager) releaseCoordinator(b *Broker) {
 func (om *offsetManager) mainLoop() {
 	defer om.ticker.Stop()
 	defer close(om.closed)
+	defer verifEvtKV("lc.om.closed.close", "", verifID(om), 0)
 
 	for {
 		select {
@@ -554,6 +564,7 @@ func (pom *partitionOffsetManager) NextOffset() (int64, string) {
 
 func (pom *partitionOffsetManager) AsyncClose() {
 	pom.lock.Lock()
+	verifEvtKV("lc.pom.done", "", verifID(pom), 0)
 	pom.done = true
 	pom.lock.Unlock()
 }
@@ -580,6 +591,7 @@ func (pom *partitionOffsetManager) handleError(err error) {
 	}
 
 	if pom.parent.conf.Consumer.Return.Errors {
+		verifEvtKV("lc.pom.errors.send", "", verifID(pom), 0)
 		pom.errors <- cErr
 	} else {
 		Logger.Println(cErr)
@@ -588,6 +600,7 @@ func (pom *partitionOffsetManager) handleError(err error) {
 
 func (pom *partitionOffsetManager) release() {
 	pom.releaseOnce.Do(func() {
+		verifEvtKV("lc.pom.errors.close", "", verifID(pom), verifID(pom.parent))
 		close(pom.errors)
 	})
 }
